@@ -234,6 +234,10 @@ func (g *agen) triState(o O, key string, pool []string) {
 		for _, p := range pool {
 			if g.Pct(50) {
 				a = append(a, p)
+				if g.Pct(15) {
+					a = append(a, p) // a duplicate, possibly followed by a value not seen yet
+					g.Label(key + ":duplicate")
+				}
 			}
 		}
 		o[key] = a
